@@ -29,16 +29,36 @@ def windows(b, n=16, step=7):
 
 
 def _build(job):
-    members, filters, password, mode_ops = job
+    members, filters, password, mode_ops = job[:4]
+    pre = job[4] if len(job) > 4 else None
     import py7zr
     buf = io.BytesIO()
     kw = {"filters": filters} if filters is not None else {}
     if password is not None:
         kw["password"] = password
+    mode = "w"
+    if pre is not None:
+        # an earlier session of the same archive (same chain and password) with its own header-mode calls:
+        # the session under test then APPENDS, and its header mode alone decides how the final header is stored
+        pre_members, pre_ops = pre
+        kw0 = dict(kw)
+        if pre_ops and pre_ops[0] == "ctor":
+            kw0["header_encryption"] = True
+            pre_ops = pre_ops[1:]
+        with py7zr.SevenZipFile(buf, "w", **kw0) as z:
+            for op in pre_ops:
+                if op == "enc+":
+                    z.set_encrypted_header(True)
+                elif op == "encoded-":
+                    z.set_encoded_header_mode(False)
+            for i, (n, d) in enumerate(pre_members):
+                z.writestr(d, n)
+        buf.seek(0)
+        mode = "a"
     if mode_ops and mode_ops[0] == "ctor":
         kw["header_encryption"] = True
         mode_ops = mode_ops[1:]
-    with py7zr.SevenZipFile(buf, "w", **kw) as z:
+    with py7zr.SevenZipFile(buf, mode, **kw) as z:
         for op in mode_ops:
             if op == "enc+":
                 z.set_encrypted_header(True)
@@ -112,6 +132,15 @@ def run(ctx):
         jobs.append((members, filters, pw, ops))
         jobs.append((members, filters, pw, ops))        # second build of the same input: IV / ciphertext must differ
         meta.append((lab + "+AES", pw, ops, members))
+        if i % 2 == 0:
+            # the same session as an APPEND to an earlier session whose header was plain, encoded or encrypted
+            pre_names = ["confidential-pre/%s.secret-name" % "".join(chr(rng.randrange(0x61, 0x7B)) for _ in range(8))]
+            pre_members = [(pre_names[0], rng.choice(PLAIN) + b"#pre")]
+            pre_ops = rng.choice([[], [], ["ctor"], ["enc+"], ["encoded-"]])
+            f2 = filters if i % 4 == 0 else None
+            jobs.append((members, f2, pw, ops, (pre_members, pre_ops)))
+            jobs.append((members, f2, pw, ops, (pre_members, pre_ops)))
+            meta.append(((lab + "+AES" if f2 is not None else "default") + "/append-after-%s" % ("+".join(pre_ops) or "plain-header"), pw, ops, pre_members + members))
     # default filters (filters=None): the library picks the encrypted default chain whenever a password is given
     for pw in ("", "x", "pässwörd"):
         names = ["confidential-d/%s.secret-name" % pw.encode().hex()]
